@@ -476,7 +476,12 @@ def remove_small_rotations(circuit, param_threshold=1e-3, remove_qubits=False):
     """
 
     rot_gates = {"RX", "RY", "RZ", "CRX", "CRY", "CRZ"}
-    gates = [g for g in circuit._gates if not (g.name in rot_gates and abs(g.parameter) % (2*np.pi) < param_threshold)]
+
+    def period(gate):
+        # A rotation by 2*pi is the global phase -1, except when it is controlled: then only 4*pi is the identity.
+        return 4*np.pi if gate.control is not None else 2*np.pi
+
+    gates = [g for g in circuit._gates if not (g.name in rot_gates and abs(g.parameter) % period(g) < param_threshold)]
 
     return Circuit(gates) if remove_qubits else Circuit(gates, n_qubits=circuit.width)
 
